@@ -1,18 +1,23 @@
 // bounded stand-in driver (appended to acts/src/package/tests/subflow.rs of a scratch copy): property C15.
 // A calling act stays open until its child process has terminated and is then closed exactly once, in the way the child ended:
 // completed / error (with the child's code and message) / aborted / skipped; a missing target model fails the calling act.
-// 7 scenarios: the child's single irq act answered next / error(code) / abort / skip (the child then completes), a child script that throws (engine error, empty
+// 8 scenarios: a timeout rule on the calling act finishing while the child is still open; the child's single irq act answered next / error(code) / abort / skip (the child then completes), a child script that throws (engine error, empty
 // code), a missing model at depth 1 and at depth 2.
 #[tokio::test]
 async fn verif_replay_hist_subflow_return() {
     use std::sync::{Arc, Mutex};
     let mut bad: Vec<String> = Vec::new();
     #[derive(Clone, Copy, Debug, PartialEq)]
-    enum Sc { Next, ErrorCode, Abort, Skip, ScriptThrows, Missing1, Missing2 }
-    for sc in [Sc::Next, Sc::ErrorCode, Sc::Abort, Sc::Skip, Sc::ScriptThrows, Sc::Missing1, Sc::Missing2] {
+    enum Sc { Next, ErrorCode, Abort, Skip, ScriptThrows, Missing1, Missing2, TimeoutWhileChildOpen }
+    for sc in [Sc::Next, Sc::ErrorCode, Sc::Abort, Sc::Skip, Sc::ScriptThrows, Sc::Missing1, Sc::Missing2, Sc::TimeoutWhileChildOpen] {
         let target = if sc == Sc::Missing1 { "not_deployed" } else { "w2" };
         let mut main = Workflow::new().with_id("main").with_step(|step| step.with_id("step1"));
-        main.steps[0].acts.push(Act::subflow(json!({ "to": target })).with_id("call1"));
+        if sc == Sc::TimeoutWhileChildOpen {
+            // a timeout rule on the calling act whose steps finish while the child is still waiting for its client
+            main.steps[0].acts.push(Act::subflow(json!({ "to": target })).with_id("call1").with_timeout(|t| t.with_on("1s").with_step(|s| s.with_id("ts1"))));
+        } else {
+            main.steps[0].acts.push(Act::subflow(json!({ "to": target })).with_id("call1"));
+        }
         let w2 = match sc {
             Sc::ScriptThrows => Workflow::new().with_id("w2").with_step(|step| step.with_id("s1").with_act(Act::code(r#"throw new Error("boom in child");"#).with_id("code1"))),
             Sc::Missing2 => Workflow::new().with_id("w2").with_step(|step| step.with_id("s1").with_act(Act::subflow(json!({ "to": "not_deployed" })).with_id("call2"))),
@@ -25,7 +30,7 @@ async fn verif_replay_hist_subflow_return() {
         let child_done_before: Arc<Mutex<Option<bool>>> = Arc::new(Mutex::new(None));
         emitter.on_message(move |e| {
             if e.nid == "call1" { cm.lock().unwrap().push(e.state.to_string()); }
-            if e.is_key("act1") && e.is_state(MessageState::Created) {
+            if e.is_key("act1") && e.is_state(MessageState::Created) && sc != Sc::TimeoutWhileChildOpen {
                 let mut options = Vars::new();
                 let action = match sc {
                     Sc::Next => EventAction::Next,
@@ -38,6 +43,16 @@ async fn verif_replay_hist_subflow_return() {
         });
         let _ = child_done_before;
         scher.launch(&proc);
+        if sc == Sc::TimeoutWhileChildOpen {
+            // nobody answers the child's act: 3 s later (rule at 1 s, tick 0.9 s) the calling act must still be open
+            tokio::time::sleep(std::time::Duration::from_millis(3200)).await;
+            let st = proc.task_by_nid("call1").first().map(|t| t.state());
+            let ts = proc.task_by_nid("ts1").first().map(|t| t.state());
+            if st.as_ref().map(|s| s.is_completed()).unwrap_or(true) || proc.state().is_completed() {
+                bad.push(format!("REPLAY-FAIL scenario {sc:?}: the child process is still waiting for its client, yet the calling act is {st:?} and the calling process {} (timeout step ts1 = {ts:?})", proc.state()));
+            }
+            continue;
+        }
         let mut left = 5000u64;
         while left > 0 && !proc.state().is_completed() { tokio::time::sleep(std::time::Duration::from_millis(25)).await; left = left.saturating_sub(25); }
         tokio::time::sleep(std::time::Duration::from_millis(100)).await;
